@@ -7,19 +7,22 @@ EXTENDS Orswot, TLC, Json
 
 CONSTANTS Times,      \* model time values
           Counters,   \* counter values
-          MaxOps,     \* bound on the number of insert/delete operations
+          MaxOps,     \* bound on the number of insert/delete operations (deliveries when AllowDup)
+          AllowDup,   \* TRUE: an operation may be delivered again (same stamp, key and kind)
           EmitEdges   \* TRUE: print one EDGE line per transition
 
 VARIABLES st,      \* faithful set state
           lww,     \* oracle: per key the greatest op presented so far ([ts, del] or None)
           seen,    \* oracle: per origin the newest stamp presented so far
           used,    \* stamps already used (the properties assume distinct stamps)
+          ops,     \* the operations presented so far <<ts, key, kind>>: an operation may be delivered again (duplication)
+          cnt,     \* number of deliveries so far
           clean,   \* TRUE while every presented op was inside the forgiveness window and nothing was purged
           pmax,    \* per node: greatest purged delete stamp (or None)
           op       \* history variable: the last transition (hidden by the VIEW)
 
-vars == <<st, lww, seen, used, clean, pmax, op>>
-MCView == [st |-> st, lww |-> lww, seen |-> seen, used |-> used, clean |-> clean, pmax |-> pmax]
+vars == <<st, lww, seen, used, ops, cnt, clean, pmax, op>>
+MCView == [st |-> st, lww |-> lww, seen |-> seen, used |-> used, ops |-> ops, cnt |-> cnt, clean |-> clean, pmax |-> pmax]
 
 Stamps == { <<t, c, n>> : t \in Times, c \in Counters, n \in Nodes }
 
@@ -28,6 +31,8 @@ Init ==
   /\ lww = [k \in Keys |-> None]
   /\ seen = [n \in Nodes |-> None]
   /\ used = {}
+  /\ ops = {}
+  /\ cnt = 0
   /\ clean = TRUE
   /\ pmax = [n \in Nodes |-> None]
   /\ op = [kind |-> "init"]
@@ -38,8 +43,14 @@ InWindow(ts) == seen[ts[3]] = None \/ ts[1] + F > seen[ts[3]][1]
 Mutate(kind, s, k, ts) ==
   LET r  == IF kind = "insert" THEN InsertWS(st, s, k, ts) ELSE DeleteWS(st, s, k, ts)
       wa == WillApply(st, k, ts)
-  IN /\ ts \notin used
-     /\ Cardinality(used) < MaxOps
+  IN /\ IF AllowDup
+        THEN /\ (ts \notin used \/ <<ts, k, kind>> \in ops)   \* a fresh stamp, or the same operation delivered again
+             /\ cnt < MaxOps
+             /\ cnt' = cnt + 1
+             /\ ops' = ops \cup {<<ts, k, kind>>}
+        ELSE /\ ts \notin used
+             /\ Cardinality(used) < MaxOps
+             /\ UNCHANGED <<cnt, ops>>
      /\ st' = r[2]
      /\ used' = used \cup {ts}
      /\ lww' = [lww EXCEPT ![k] = IF @ = None \/ Lt(@.ts, ts) THEN [ts |-> ts, del |-> kind = "delete"] ELSE @]
@@ -55,7 +66,7 @@ DoPurge ==
                    LET mine == { p[2] : p \in { q \in r[1] : q[2][3] = n } }
                    IN IF mine = {} THEN pmax[n] ELSE MaxOpt(pmax[n], MaxOf(mine))]
      /\ clean' = (clean /\ r[1] = {})
-     /\ UNCHANGED <<lww, seen, used>>
+     /\ UNCHANGED <<lww, seen, used, ops, cnt>>
      /\ op' = [kind |-> "purge", purged |-> r[1]]
 
 Next ==
